@@ -28,9 +28,9 @@ pub struct Case {
 }
 
 /// entry points whose verdict is also computed by the Lean model (input ≤ 4 KiB)
-pub const MODEL_EPS: &[&str] = &["json", "tilejson", "csv", "mvt", "pmdir", "pmfind", "pmhdr", "vtblk", "vtbidx", "vttidx", "vthdr", "vpl", "pbfstr"];
+pub const MODEL_EPS: &[&str] = &["json", "tilejson", "csv", "mvt", "mvtprops", "pmdir", "pmfind", "pmhdr", "vtblk", "vtbidx", "vttidx", "vthdr", "vpl", "pbfstr"];
 pub const ALL_EPS: &[&str] = &[
-	"json", "jsonstr", "tilejson", "csv", "buildcsv", "vpl", "vpllimit", "vplfile", "build", "mvt", "pbfstr", "pmdir", "pmfind", "pmhdr", "vtblk", "vtbidx", "vttidx", "vthdr", "vt", "pm", "vtfile", "pmfile", "mb",
+	"json", "jsonstr", "tilejson", "csv", "buildcsv", "vpl", "vpllimit", "vplfile", "build", "mvt", "mvtprops", "mvtfull", "pbfstr", "pmdir", "pmfind", "pmhdr", "vtblk", "vtbidx", "vttidx", "vthdr", "vt", "pm", "vtfile", "pmfile", "mb",
 	"tar", "dir",
 ];
 
@@ -453,6 +453,60 @@ pub fn eval(ctx: &mut Ctx, c: &Case) -> V {
 			verdict_only(|| rt.block_on(async { factory(&dir).operation_from_vpl(s).await.map(|_| ()) }))
 		}
 		"mvt" => verdict_only(|| versatiles_geometry::vector_tile::VectorTile::from_blob(&Blob::from(b.clone()))),
+		// second decoding stage: the properties of every feature of every layer (tag ids → key/value tables)
+		"mvtprops" => verdict_only(|| {
+			let tile = versatiles_geometry::vector_tile::VectorTile::from_blob(&Blob::from(b.clone()))?;
+			let mut n = 0usize;
+			let mut first_err = None;
+			for layer in &tile.layers {
+				for f in &layer.features {
+					// (every feature is decoded, also after an error: a later one must not panic either)
+					match f.decode_properties(layer) {
+						Ok(p) => n += p.iter().count(),
+						Err(e) => first_err = first_err.or(Some(e)),
+					}
+				}
+			}
+			match first_err {
+				Some(e) => Err(e),
+				None => Ok(n),
+			}
+		}),
+		// every lazily decoded stage reachable from a VectorTile: features, geometry, properties, re-encoding,
+		// property rewriting; each call under its own catch_unwind
+		"mvtfull" => {
+			let (v, tile) = call(|| versatiles_geometry::vector_tile::VectorTile::from_blob(&Blob::from(b.clone())));
+			let Some(mut tile) = tile else { return v };
+			let mut worst = V::Ok;
+			let mut note = |v: V| {
+				if v == V::Panic || (v == V::Err && worst == V::Ok) {
+					worst = v;
+				}
+			};
+			for layer in &tile.layers {
+				note(verdict_only(|| layer.to_features()));
+				note(verdict_only(|| layer.to_blob()));
+				for f in &layer.features {
+					note(verdict_only(|| f.to_geometry()));
+					note(verdict_only(|| f.decode_properties(layer)));
+					note(verdict_only(|| f.to_feature(layer)));
+					note(verdict_only(|| f.to_blob()));
+					note(verdict_only(|| layer.decode_tag_ids(&f.tag_ids)));
+				}
+			}
+			note(verdict_only(|| tile.to_blob()));
+			for layer in tile.layers.iter_mut() {
+				note(verdict_only(|| layer.map_properties(|p| p)));
+				note(verdict_only(|| layer.filter_map_properties(Some)));
+				note(verdict_only(|| layer.to_features()));
+			}
+			note(verdict_only(|| tile.to_blob()));
+			if worst == V::Panic {
+				V::Panic
+			} else {
+				V::Ok
+			}
+		}
 		"pbfstr" => verdict_only(|| {
 			let mut r = ValueReaderSlice::new_le(b);
 			let s = r.read_pbf_string()?;
@@ -793,7 +847,7 @@ pub fn run(args: &Args) {
 (bit flips, byte replacement, truncation, deletion, duplication, splices of two valid encodings, length fields set to 2^31/2^32/2^63/2^64-1 and neighbours, multi-byte UTF-8 placed at every \
 alignment relative to error sites, JSON/VPL nesting to 512 quick / 5000 thorough, JSON nesting 1023..1026 around the parser's limit of 1024 and 20 000 / 100 000 levels as crash probes, multi-byte characters straddling ABSOLUTE byte offsets 16..4096 (+-1) of malformed and valid documents, VPL nesting 64/65/66 and 5000 after lexically tricky prefixes (quoted values ending in an escaped backslash, escaped quotes, brackets inside quotes; depth > 64 must be err), self-referential PMTiles leaf directories, semantic corruption of SQLite rows, odd tar member names); \
 container cases perform a sequence of single-tile lookups on one opened reader (first coordinate three times, all probes, all probes again: cache-hit paths after errors and successes); each case runs in a child process (RLIMIT_AS 4 GiB, 10 s watchdog) under catch_unwind with a counting global allocator. Oracle: verdict is ok or err (never panic, abort, SIGSEGV, timeout) and the \
-largest single allocation request is <= {}*|input| + 24 MiB. Entry points with a Lean model (json, tilejson, csv, mvt, pbfstr, pmdir, pmfind, pmhdr, vtblk, vtbidx, vttidx, vthdr, vpl; input <= 4 KiB) are also compared with the model's verdict. \
+largest single allocation request is <= {}*|input| + 24 MiB. Entry points with a Lean model (json, tilejson, csv, mvt, mvtprops, pbfstr, pmdir, pmfind, pmhdr, vtblk, vtbidx, vttidx, vthdr, vpl; input <= 4 KiB) are also compared with the model's verdict. \
 non-trivial = derived from a valid encoding or structured generator (everything except class 'random'); distinct by case text",
 		ALL_EPS.join(", "),
 		ALLOC_FACTOR
